@@ -349,7 +349,8 @@ func (r *Runner) RunCross(s *CfgScript, tw *TraceWriter) error {
 		key = "0123456789abcdefGHIJKLMNOPQRSTUV"
 	}
 	mk := func() (*Inst, error) {
-		cfg := ScriptCfg{TokenAuth: true, Auth: "openid", Sel: "roundrobin", Hosts: [][]string{{"H1", ":", "PA"}}, VerifyIp: false, UserTok: "enc", Template: "{{ username }}::{{ token }}"}
+		// (the two gateways run on one machine: same home and temporary directories)
+		cfg := ScriptCfg{TokenAuth: true, Auth: "openid", Sel: "roundrobin", Hosts: [][]string{{"H1", ":", "PA"}}, VerifyIp: false, UserTok: "enc", Template: "{{ username }}::{{ token }}", SharedEnv: true}
 		cfg.KeyOverride = map[string]string{s.Key: key}
 		if s.Len == 0 {
 			cfg.KeyOverride = map[string]string{s.Key: "-"}
